@@ -3,8 +3,6 @@
 use crate::engine::{Acc, Opts};
 use serde_json::Value;
 
-pub mod c03;
-
 pub struct Prop {
     pub id: &'static str,
     /// how cases are generated and what makes one non-trivial / distinct (goes to evidence)
@@ -19,9 +17,16 @@ pub struct Prop {
     pub both_profiles: fn(&Opts) -> bool,
 }
 
-pub fn all() -> Vec<&'static Prop> {
-    vec![&c03::PROP]
+macro_rules! props {
+    ($($m:ident),* $(,)?) => {
+        $(pub mod $m;)*
+        pub fn all() -> Vec<&'static Prop> {
+            vec![$(&$m::PROP),*]
+        }
+    };
 }
+
+props!(c02, c03, c09, c10, c17);
 
 pub fn find(id: &str) -> Option<&'static Prop> {
     all().into_iter().find(|p| p.id == id)
